@@ -32,13 +32,13 @@ def grid_for(sizes, outside=True):
     pts = [list(p) for p in itertools.product(*axes)]
     base = [0.25] * d
     for k in range(d):
-      for v in ((-0.5, sizes[k] - 0.5, 0.75) if outside else (0.75,)):
+      for v in ((-0.5, sizes[k] - 0.5, 0.75, -1.5, sizes[k] + 1.25) if outside else (0.75,)):
         p = list(base)
         p[k] = v
         pts.append(p)
     return np.array(pts, dtype=np.float64)
   fine = rl.nvert(sizes) <= 40
-  return rl.input_grid(sizes, fine=fine, outside=outside)
+  return rl.input_grid(sizes, fine=fine, outside=outside, far=outside and rl.nvert(sizes) <= 40)
 
 
 def make_layer(sizes, units, interpolation, clip):
